@@ -37,6 +37,18 @@ ORDER = {
 SWAPS = [(" + ", " - "), (" - ", " + "), (" * ", " / "), (" / ", " * "), (" < ", " <= "), (" <= ", " < "), (" > ", " >= "), (" >= ", " > "),
          (" == ", " != "), (" != ", " == "), (" && ", " || "), (" || ", " && "), (" >> ", " << "), (".min(", ".max("), (".max(", ".min("),
          (" += ", " -= "), (" -= ", " += "), (" *= ", " /= ")]
+# semantic operators (second campaign): sibling identifiers, enum variants, dropped clamps, booleans
+IDENT_SWAPS = [("ss_x", "ss_y"), ("ss_y", "ss_x"), ("width", "height"), ("height", "width"), ("u_", "v_"), ("v_", "u_"), ("kr", "kb"), ("kb", "kr"),
+               ("xdec", "ydec"), ("subsampling_x", "subsampling_y"), ("subsampling_y", "subsampling_x"), ("xorigin", "yorigin"), ("r1", "r2"), ("r2", "r3"),
+               ("c1", "c2"), ("c2", "c3"), ("[0]", "[1]"), ("[1]", "[2]"), ("[2]", "[0]"), (".r()", ".g()"), (".g()", ".b()"), ("to_linear", "to_gamma"),
+               ("full_range", "!full_range"), ("true", "false"), ("false", "true"), ("chroma_width", "chroma_height"), ("y_stride", "u_stride"), ("max", "min")]
+VARIANT = re.compile(r"\b(TransferCharacteristic|MatrixCoefficients|ColorPrimaries)::([A-Za-z0-9]+)")
+VARIANTS = {
+    "TransferCharacteristic": ["BT1886", "BT470M", "BT470BG", "ST170M", "ST240M", "Linear", "Logarithmic100", "Logarithmic316", "XVYCC", "BT1361E", "SRGB", "BT2020Ten", "BT2020Twelve", "PerceptualQuantizer", "ST428", "HybridLogGamma"],
+    "MatrixCoefficients": ["Identity", "BT709", "BT470M", "BT470BG", "ST170M", "ST240M", "YCgCo", "BT2020NonConstantLuminance", "BT2020ConstantLuminance", "ST2085", "ChromaticityDerivedNonConstantLuminance", "ICtCp"],
+    "ColorPrimaries": ["BT709", "BT470M", "BT470BG", "ST170M", "ST240M", "Film", "BT2020", "ST428", "P3DCI", "P3Display", "Tech3213"],
+}
+DROPCALL = re.compile(r"\.(max|min|clamp|abs)\((?:[^()]|\([^()]*\))*\)")
 FLOAT = re.compile(r"(?<![\w.])(\d+\.\d+(?:e-?\d+)?)(?![\w.]*\()")
 INT = re.compile(r"(?<![\w.])(\d+)(?![\w.])")
 
@@ -49,10 +61,18 @@ def sh(cmd, cwd=None, env=None, timeout=3600):
 def code_lines(path):
     """(line number, text) of non-test, non-comment, non-hook lines"""
     out = []
+    in_block = False
     for i, l in enumerate(open(path).read().split("\n")):
         if "#[cfg(test)]" in l:
             break
         s = l.strip()
+        if in_block:
+            if "*/" in s:
+                in_block = False
+            continue
+        if s.startswith("/*"):
+            in_block = "*/" not in s
+            continue
         if not s or s.startswith("//") or s.startswith("#[") or s.startswith("#![") or s.startswith("use ") or s.startswith("pub use ") or "verif::" in s or "verif-hooks" in s:
             continue
         if s.startswith("///") or s.startswith("//!") or "log::" in s or "warn!" in s or "write!(" in s or "assert" in s:
@@ -61,11 +81,25 @@ def code_lines(path):
     return out
 
 
-def candidates(repo):
+def candidates(repo, semantic=False):
     c = []
     for f in FILES:
         for i, l in code_lines(os.path.join(repo, f)):
             code = l.split("//")[0]
+            if semantic:
+                for a, b in IDENT_SWAPS:
+                    for m in re.finditer(r"(?<![A-Za-z0-9])" + re.escape(a) + (r"(?![A-Za-z0-9_])" if a[-1].isalnum() else ""), code):
+                        if a in ("max", "min") and not code[m.end():].startswith("("):
+                            continue
+                        c.append((f, i, m.start(), a, b, f"{a} -> {b}"))
+                for m in VARIANT.finditer(code):
+                    vs = VARIANTS[m.group(1)]
+                    if m.group(2) in vs:
+                        nv = vs[(vs.index(m.group(2)) + 1) % len(vs)]
+                        c.append((f, i, m.start(2), m.group(2), nv, f"{m.group(1)}::{m.group(2)} -> {nv}"))
+                for m in DROPCALL.finditer(code):
+                    c.append((f, i, m.start(), m.group(0), "", f"drop {m.group(0)}"))
+                continue
             for a, b in SWAPS:
                 for m in re.finditer(re.escape(a), code):
                     # skip generics / arrows / lifetimes
@@ -155,7 +189,7 @@ def run_mutant(args):
 
 def main():
     a = sys.argv[1:]
-    n, seed, lanes, only, listing = 200, 1, 4, None, False
+    n, seed, lanes, only, listing, semantic = 200, 1, 4, None, False, False
     while a:
         x = a.pop(0)
         if x == "--n":
@@ -168,7 +202,9 @@ def main():
             only = a.pop(0)
         elif x == "--list":
             listing = True
-    cands = candidates("/repo")
+        elif x == "--semantic":
+            semantic = True
+    cands = candidates("/repo", semantic)
     if only:
         cands = [c for c in cands if only in c[0]]
     rnd = random.Random(seed)
@@ -194,7 +230,7 @@ def main():
     chunks = [list(enumerate(pick))[i::lanes] for i in range(lanes)]
 
     def work(i):
-        return [run_mutant((f"s{seed}-{k}", m, i, base)) for k, m in chunks[i]]
+        return [run_mutant((f"{'m' if semantic else 's'}{seed}-{k}", m, i, base)) for k, m in chunks[i]]
 
     results = []
     with ThreadPoolExecutor(max_workers=lanes) as ex:
